@@ -276,6 +276,7 @@ def run(ctx):
     _run_rules(ctx)
     from .. import boundaries
     boundaries.check(ctx, 'C17.RB', 'C17')
+    boundaries.check_codes(ctx, 'C17.RE', 'C17')
     boundaries.check_writes(ctx, 'C17.RW', 'C17')
     boundaries.check_calls(ctx, 'C17.RC', 'C17')
     from . import C16, C07
